@@ -507,6 +507,12 @@ pub fn gen(args: &Args, out: &mut dyn Write) {
                     1 => { let w = 6; [[w, -w, 2 * w - 12, w], [w, w + j(&mut rng), 2 * w - 12, w], [1 + j(&mut rng), -w, 2 * w - 12, w]] }
                     _ => { let w = 10; [[-8 + j(&mut rng), -8, 2 * w - 12, w], [8 + j(&mut rng), -8, 2 * w - 12, w], [j(&mut rng), 10, 2 * w - 12, w]] }
                 }
+            } else if painter && i % 10 == 9 {
+                // three large overlapping triangles right behind the near plane (clip-space z negative for the
+                // first two): w = 4, 5, 6, each spanning most of the view
+                let w = 4 + t as i64;
+                let j = |rng: &mut Rng| rng.range(-1, 1);
+                [[-w + 1 + j(&mut rng), -w + 1, 2 * w - 12, w], [w - 1, -w + 1 + j(&mut rng), 2 * w - 12, w], [j(&mut rng), w - 1, 2 * w - 12, w]]
             } else if painter {
                 // disjoint depth ranges, wholly inside the frustum; often all close to the
                 // near plane, where clip-space z is negative
@@ -533,6 +539,13 @@ pub fn gen(args: &Args, out: &mut dyn Write) {
         let mut twin = tris[0];
         twin.swap(1, 2);
         tris.push(twin);
+        // ... and a triangle that lies wholly beyond a corner of the view volume without being behind any ONE of its
+        // planes: it goes through the polygon clipper and nothing of it remains (what follows it in a call must not care)
+        if !tinyfar {
+            let w = 6;
+            let sx = if i % 2 == 0 { 1 } else { -1 };
+            tris.push([[sx * (2 * w + 1), 0, 0, w], [0, 2 * w + 1, 0, w], [sx * (2 * w + 2), 2 * w + 2, 0, w]]);
+        }
         let ntot = tris.len();
         let all_nv = 3 * ntot;
         let mut hists: Vec<Value> = vec![];
@@ -593,6 +606,10 @@ pub fn gen(args: &Args, out: &mut dyn Write) {
                     ord.swap(j, rng.below(j as u64 + 1) as usize);
                 }
                 ord.truncate(k);
+                // (every fourth history opens with the beyond-the-corner triangle followed by all the others)
+                if hk % 4 == 1 && calls.is_empty() && !tinyfar {
+                    ord = std::iter::once(ntot).chain(1..ntot).collect();
+                }
                 let need = 3 * *ord.iter().max().unwrap();
                 let ctx = json!({"cull": rng.below(3), "sort": if rng.chance(1, 4) { rng.below(3) } else { 0 },
                     "test": rng.below(4), "cw": rng.below(4).min(1), "dw": rng.below(4).min(1),
